@@ -11,10 +11,11 @@ Model of the contact-polygon part of `distance3d/hydroelastic_contact` (core Lea
 * `utils.py`                     : `plane_basis_from_normal`
 
 Faithful to the code as it is: the `|denom| < EPSILON` parallel test, the `-EPSILON` slack of the
-outside test, the `3 * len(halfplanes)` buffer of `intersect_halfplanes` with *checked* writes
+outside test, the `n (n - 1) // 2 + 1` row buffer of `intersect_halfplanes` with *checked* writes
 (`indexOOB` when the buffer is full — the Python `assert` only runs after the loop, so an
-overflowing write comes first: IndexError interpreted, out-of-bounds store under numba) and the
-strict assertion `n_intersections < len(points)` afterwards, the `norm > EPSILON` skip of
+overflowing write would come first: IndexError interpreted, out-of-bounds store under numba) and
+the strict assertion `n_intersections < len(points)` afterwards (the `3 * len(halfplanes)` buffer
+before the repair commit is kept as `intersectHalfplanes_asIs_before_fix`), the `norm > EPSILON` skip of
 `make_halfplanes` with compact writes at `hp_idx` (the indexing before the repair commit is kept as
 `makeHalfplanes_asIs_before_fix`), the two "same tetrahedron" exits of `contact_plane`
 (`norm == 0.0` and `abs(d) < 10 * EPSILON`).
@@ -120,8 +121,13 @@ def validPoint (hps : List (HP α)) (i j : Nat) (p : V2 α) : Bool :=
 def pairIdx (n : Nat) : List (Nat × Nat) :=
   (List.range n).flatMap fun i => (List.range n).filterMap fun j => if i < j then some (i, j) else none
 
-/-- rows of `points = np.empty((3 * len(halfplanes), 2))` -/
-def bufferRows (n : Nat) : Nat := 3 * n
+/-- rows of `points = np.empty((n_halfplanes * (n_halfplanes - 1) // 2 + 1, 2))`: one row per pair
+`i < j` plus one (Python's `0 * (0 - 1) // 2 + 1 = 1` for the empty list agrees with the truncated
+subtraction here) -/
+def bufferRows (n : Nat) : Nat := n * (n - 1) / 2 + 1
+
+/-- rows of the buffer before the repair commit: `points = np.empty((3 * len(halfplanes), 2))` -/
+def bufferRows_asIs_before_fix (n : Nat) : Nat := 3 * n
 
 /-- body of the double loop for one pair `(i, j)`; `acc` = the rows written so far
 (`n_intersections = acc.length`).  The write `points[n_intersections] = p` is checked. -/
@@ -137,11 +143,19 @@ def ihStep (hps : List (HP α)) (cap : Nat) (acc : List (V2 α)) (ij : Nat × Na
       else .ok acc
   | _, _ => .error .indexOOB
 
-/-- `intersect_halfplanes` -/
-def intersectHalfplanes (hps : List (HP α)) : Except Err (List (V2 α)) := do
-  let cap := bufferRows hps.length
+/-- `intersect_halfplanes` with the number of buffer rows as a function of `len(halfplanes)` -/
+def intersectHalfplanesWith (rows : Nat → Nat) (hps : List (HP α)) : Except Err (List (V2 α)) := do
+  let cap := rows hps.length
   let acc ← (pairIdx hps.length).foldlM (ihStep hps cap) []
   if acc.length < cap then .ok acc else .error .assertFail
+
+/-- `intersect_halfplanes` as it is now -/
+def intersectHalfplanes (hps : List (HP α)) : Except Err (List (V2 α)) :=
+  intersectHalfplanesWith bufferRows hps
+
+/-- `intersect_halfplanes` before the repair commit (buffer of `3 n` rows) -/
+def intersectHalfplanes_asIs_before_fix (hps : List (HP α)) : Except Err (List (V2 α)) :=
+  intersectHalfplanesWith bufferRows_asIs_before_fix hps
 
 /-! ### `utils.plane_basis_from_normal` -/
 
